@@ -2015,7 +2015,7 @@ func main() {
 	if run.Thorough() {
 		exhaustive()
 	}
-	n := run.Scale(1200, 14000)
+	n := run.Scale(1000, 10000)
 	if os.Getenv("C09_ONLY_EXHAUSTIVE") != "" { // manual testing aid
 		n = 0
 	}
